@@ -109,7 +109,9 @@ func e2eOptions(run *evid.Run, rng *rand.Rand, rounds int) int {
 				}
 			}
 			if mask&256 != 0 {
-				ro.RequireRecipientValidSince = time.Unix(int64(rng.Intn(2000000000)), 0).UTC()
+				// the instant is what has to arrive, whatever zone the caller's time value is in
+				zones := []*time.Location{time.UTC, time.FixedZone("east", 2*3600), time.FixedZone("west", -5*3600), time.FixedZone("half", 5*3600+1800)}
+				ro.RequireRecipientValidSince = time.Unix(int64(rng.Intn(2000000000)), int64(rng.Intn(2))*500000000).In(zones[rng.Intn(len(zones))])
 			}
 			from, to := fmt.Sprintf("from%d@x.test", mask), fmt.Sprintf("to%d@x.test", mask)
 			if mask%3 == 1 {
@@ -171,7 +173,7 @@ func e2eOptions(run *evid.Run, rng *rand.Rand, rounds int) int {
 				gr.Notify = nil
 			}
 			if gotR.To != to || !reflect.DeepEqual(gr.Notify, wantR.Notify) || gr.OriginalRecipient != wantR.OriginalRecipient ||
-				gr.OriginalRecipientType != wantR.OriginalRecipientType || !gr.RequireRecipientValidSince.Equal(wantR.RequireRecipientValidSince) {
+				gr.OriginalRecipientType != wantR.OriginalRecipientType || !gr.RequireRecipientValidSince.Equal(wantR.RequireRecipientValidSince.Truncate(time.Second)) {
 				run.Report(evid.Div{Prop: "C14", Key: "c14:e2e:rcpt-options", Msg: fmt.Sprintf("%s: backend saw to %q options %+v", ctx, gotR.To, gr), Replay: rp})
 			}
 		}
